@@ -14,7 +14,7 @@ RULE = ('case = parametrised input family F(n): (nest) a wrapper recipe - 1..4 w
         'call, comment, trailing comment} are enumerated; '
         'recipes are drawn by Hypothesis. Oracle: steps(x) = sys.monitoring LINE events inside the package during one '
         'pformat; for n = n0, 2n0, 4n0, 8n0 (n0 = 8 nesting / 50 length) require steps(2n) / steps(n) <= 12; every run is '
-        'capped at 12*steps(previous) + 10^4 events, the first at 5*10^7 (termination is decided by the same cap, never by '
+        'capped at 12*steps(previous) + 10^4 events, the first at 4*10^5 for nestings and 3.2*10^6 for the n0=50 families (the largest nesting first point of any family on the unchanged tree is about 2*10^5) (termination is decided by the same cap, never by '
         'wall time). Points that hit CPython\'s recursion limit are skipped. non-trivial = steps(n0) >= 1000 and at least '
         'two doublings measured; distinct by family hash')
 ASSUMPTIONS = ['a growth law at four points is evidence, not proof, of polynomial behaviour',
@@ -23,7 +23,7 @@ ASSUMPTIONS = ['a growth law at four points is evidence, not proof, of polynomia
 BUDGET = {'quick': {'random': 64, 'shards': 16, 'shrink_s': 5}, 'thorough': {'random': 1600, 'shards': 16, 'shrink_s': 30}}
 
 B = 12
-FIRST_CAP = 5 * 10 ** 7
+FIRST_CAP = 4 * 10 ** 5
 WRAPPERS = ['list', 'pairlist', 'tuple', 'dictval', 'dictkeytuple', 'fset', 'ns', 'box', 'sublist', 'odict', 'comment', 'tcomment']
 LEAVES = [['int', 1], ['str', 'word'], ['str', ''], ['str', 'lorem ipsum dolor sit amet ' * 3], ['bytes', '']]
 
@@ -179,7 +179,7 @@ def measure_points(case, points):
         except RecursionError:
             out.append((n, None, 'recursion-building'))
             break
-        cap = FIRST_CAP if prev is None else B * prev + 10 ** 4
+        cap = (FIRST_CAP if case['kind'] == 'nest' else 8 * FIRST_CAP) if prev is None else B * prev + 10 ** 4
         try:
             cnt, res, exceeded = steps.measure(lambda: values.pp(v, width=case['width'], ribbon_width=case['width']), cap=cap)
         except RecursionError:
